@@ -75,6 +75,10 @@ def balances(topo, nxt, getv):
 def work(item):
     tj, style, seed, timeout_ms, engines, direct = item[:6]
     hist = item[6] if len(item) > 6 else "fresh"
+    flags = None
+    if hist == "speed-clamp-only":
+        # the next-speed clamp does not touch densities or queues: the vehicle balance must hold exactly as without any option
+        hist, flags = "fresh", runs.flags_of(0b001000)
     builder = netcheck.history_builders()[hist]
     topo = T_.Topo.from_json(tj)
     rng = random.Random(seed)
@@ -84,11 +88,11 @@ def work(item):
     encs = []
     try:
         if "numpy" in engines:
-            encs += netcheck.numpy_encodings(topo, style, None, D, builder=builder)
+            encs += netcheck.numpy_encodings(topo, style, flags, D, builder=builder)
         numeric = netcheck.casadi_numeric_for(topo)
         for st in ("SX", "MX"):
             if st in engines:
-                e = netcheck.casadi_encoding(topo, st, numeric, builder=builder)
+                e = netcheck.casadi_encoding(topo, st, numeric, flags, builder=builder)
                 e.extra["numeric"] = numeric
                 encs.append(e)
     except (symx.UnsupportedOp, symx.Inconclusive) as e:
@@ -105,7 +109,7 @@ def work(item):
         if enc.name.startswith("numpy"):
             acc.d["paths"] += 1
         numeric = enc.extra.get("numeric")
-        bad = netcheck.validate_encoding(topo, enc, rng, style, None, numeric)
+        bad = netcheck.validate_encoding(topo, enc, rng, style, flags, numeric)
         if bad:
             acc.inconclusive(f"{topo.name}: encoder validation failed: {bad[0]}")
             continue
@@ -124,7 +128,7 @@ def work(item):
 
             def on_sat(model, label=label, enc=enc, numeric=numeric):
                 env = netcheck.model_env(topo, model, rng, numeric)
-                return replay_balance(topo, enc.name, style, env, label, numeric)
+                return replay_balance(topo, enc.name, style, env, label, numeric, flags=flags)
 
             if label == "network":
                 # direct attempt (thorough tier): a cross-check of the compositional proof; unknown is tolerated
@@ -150,7 +154,7 @@ def work(item):
 
             def on_sat_l(model, enc=enc, numeric=numeric):
                 env = netcheck.model_env(topo, model, rng, numeric)
-                return replay_balance(topo, enc.name, style, env, "network", numeric)
+                return replay_balance(topo, enc.name, style, env, "network", numeric, flags=flags)
 
             ok_links &= acc.query(prover, topo, enc.name, f"link-telescoping[{l.name}]", lemma, D, enc.pc, on_sat_l)
         # final step over atoms (valid for every valid topology; checked by the solver each time)
@@ -200,8 +204,12 @@ def real_next(topo, encname, style, env, numeric):
     return out, None
 
 
-def replay_balance(topo, encname, style, env, label, numeric, verbose=False):
-    nxt, exc = real_next(topo, encname, style, env, numeric)
+def replay_balance(topo, encname, style, env, label, numeric, verbose=False, flags=None):
+    if flags:
+        from checks import c18
+        nxt, exc = c18.real_next_flags(topo, encname, style, env, numeric, flags)
+    else:
+        nxt, exc = real_next(topo, encname, style, env, numeric)
     if exc is not None:
         return None
     for lab, lhs, rhs in balances(topo, nxt, lambda n: env[n]):
@@ -214,7 +222,7 @@ def replay_balance(topo, encname, style, env, label, numeric, verbose=False):
             return {"key": f"balance:{encname.split('#')[0]}:{topo.name}:{label}", "group": f"balance:{topo.name}",
                     "what": f"{topo.describe()} | {encname}: vehicle balance [{label}] violated: {lhs!r} != {rhs!r}",
                     "replay": {"property": PID, "kind": "balance", "topo": topo.to_json(), "style": style, "encoding": encname,
-                               "label": label, "env": env, "numeric": numeric, "lhs": lhs, "rhs": rhs}}
+                               "label": label, "env": env, "numeric": numeric, "lhs": lhs, "rhs": rhs, "flags": flags}}
     return None
 
 
@@ -222,7 +230,7 @@ def replay(rec):
     if rec["kind"] == "exec":
         return netcheck.replay_exec(rec)
     topo = T_.Topo.from_json(rec["topo"])
-    v = replay_balance(topo, rec["encoding"], rec["style"], rec["env"], rec["label"], rec.get("numeric"), verbose=True)
+    v = replay_balance(topo, rec["encoding"], rec["style"], rec["env"], rec["label"], rec.get("numeric"), verbose=True, flags=rec.get("flags"))
     print("violated" if v else "balance holds")
     return 1 if v else 0
 
@@ -245,8 +253,8 @@ def main():
                       args.thorough and t.name.startswith("k"), "fresh"))
         if t.name.startswith("k"):
             # the same balance on networks that were read / stepped / had elements replaced before (every step conserves vehicles)
-            hs = ["reads-interleaved", "decoy-links-replaced", "decoy-attachments-replaced"]
-            for h in (hs if args.thorough else [hs[k % 3]]):
+            hs = ["reads-interleaved", "decoy-links-replaced", "decoy-attachments-replaced", "speed-clamp-only"]
+            for h in (hs if args.thorough else [hs[k % 4], "speed-clamp-only"][: 1 + (k % 2)]):
                 items.append((t.to_json(), ("array", "scalar")[(k + 1) % 2], args.seed + k, timeout, ("numpy", "SX"), False, h))
     results = harness.pmap(work, items, args.serial)
     viol, inc, tot, levels, samples, st, _ = netcheck.summarize(results)
@@ -259,7 +267,7 @@ def main():
         {"bounds": {"family": "K (20 curated)" + (" + E(4,5) [725 structures] + every 2nd of E(3,4) with up to 5 segments + R(seed,40)" if args.thorough else ""),
                     "segments_per_link": "<= 3 (quick), <= 5 (thorough)", "values": "all reals (no sign assumptions needed at L1; domain only as fallback)"},
          "functions_encoded": ["Network.step and everything it calls (see C01)", "Engine.to_function(compact=0) IR (SX, MX)"]})
-    assumptions = ["exact real arithmetic; non-zero denominators (L1)", "no positivity clamps (all six options off), as the property states",
+    assumptions = ["exact real arithmetic; non-zero denominators (L1)", "no positivity clamps (all six options off), as the property states; one extra variant per topology switches on only the next-speed clamp, which does not touch the vehicle count",
                    "ideal-origin inflow is the first-segment flow rho*v*lam of its link (definition of the ideal origin)"]
     harness.finish(args, "model_checking", cov, assumptions, viol, inc, t0)
 
